@@ -160,6 +160,13 @@ psRes_t psVerifySig(psPool_t *pool,
         break;
 #  ifdef USE_ED25519
     case PS_ED25519:
+        if (sigLen != 64)
+        {
+            /* psEd25519Verify() reads exactly 64 signature bytes */
+            psTraceCrypto("Ed25519 signature has wrong length\n");
+            rc = PS_VERIFICATION_FAILED;
+            goto out;
+        }
         rc = psEd25519Verify(sig,
                 msgIn,
                 msgInLen,
